@@ -110,6 +110,16 @@ def run_case(case):
     for i, v in case["target"]:
         tgt[ni.names[i % ni.n]] = v
     drv = find_single_drivers(tgt, g)
+    # the same query with the caller's own table: the answer must be the same and the table must come back unchanged
+    import copy as _copy
+    ld_before = _copy.deepcopy(ld)
+    tgt_before = dict(tgt)
+    drv2 = find_single_drivers(tgt, g, ld)
+    if drv2 != drv:
+        fails.append({"kind": "single-drivers", "sig": {"what": "with-table"}, "detail": f"target {tgt}: with the caller's LDOI table {sorted(drv2)}, without {sorted(drv)}"})
+    if ld != ld_before or tgt != tgt_before:
+        bad = sorted(k for k in ld_before if ld.get(k) != ld_before[k])[:3]
+        fails.append({"kind": "argument-mutated", "sig": {"fn": "find_single_drivers"}, "detail": f"the caller's LDOI table / target changed during the call: entries {bad}"})
     want = {fix for fix, l in ld.items() if all((l | {fix[0]: fix[1]}).get(k) == v for k, v in tgt.items())}
     if drv != want:
         fails.append({"kind": "single-drivers", "sig": {}, "detail": f"target {tgt}: {sorted(drv)} vs from LDOIs {sorted(want)}"})
